@@ -81,7 +81,7 @@ func (fr *Frame) evalModifies(desigs []string, names map[string]tval, st *State)
 		if d == "*" || d == "everything" {
 			return nil, true, nil
 		}
-		if d == "fresh" || d == "" {
+		if d == "fresh" || d == "" || strings.HasPrefix(d, "ghost(") {
 			continue
 		}
 		e, perr := parseExpr(d)
@@ -323,6 +323,14 @@ func (fr *Frame) applyContract(ct *Contract, key string, sig *types.Signature, f
 			}
 		}
 	}
+	for _, g := range ghostModifies(ct.Modifies) {
+		if old, ok := post.ghost[g]; ok {
+			post.ghost[g] = u.fresh("g!"+g, old.Sort)
+			if g == "epoch" {
+				u.assume(True, Gt(post.ghost[g], old)) // epochs only move forward
+			}
+		}
+	}
 	// lock post-state
 	for _, h := range ct.HeldPost {
 		ctx := fr.newEvalCtx(pre, pre, names)
@@ -407,6 +415,14 @@ func (u *Unit) verifyRoot() {
 			t := u.declareOnce("logical:"+lg.Name, u.w.sortOf(ty))
 			u.logical[lg.Name] = envEntry{val: t, typ: ty}
 		}
+	}
+	st.ghost["epoch"] = u.fresh("epoch0", SInt)
+	for _, g := range u.cs.GhostVars {
+		gs := SInt
+		if g.Sort == "bool" {
+			gs = SBool
+		}
+		st.ghost[g.Name] = u.declareOnce("ghost:"+g.Name, gs)
 	}
 	fr.entry = st.clone()
 	st = fr.runPackageInit(st)
@@ -592,6 +608,16 @@ func (fr *Frame) runCallbackLoop(mc *ssa.MakeClosure, calleeCt *Contract, paramN
 		for i, fv := range fn.FreeVars {
 			if i < len(binds) {
 				child.regs[fv] = binds[i]
+			}
+		}
+		if calleeCt != nil {
+			for _, g := range ghostModifies(calleeCt.Modifies) {
+				if old, ok := s.ghost[g]; ok {
+					s.ghost[g] = u.fresh("g!"+g, old.Sort)
+					if g == "epoch" {
+						u.assume(True, Gt(s.ghost[g], old))
+					}
+				}
 			}
 		}
 		pre := &State{alloc: allocBefore}
